@@ -49,6 +49,10 @@ CLAIMED = {
    text="is_isomorphic, is_isomorphic_matching, is_isomorphic_subgraph, is_isomorphic_subgraph_matching and subgraph_isomorphisms_iter (with and without weight predicates) on pairs of simple (di)graphs with loops (relabelled copies, near misses, induced subgraphs, independent pairs; three build histories each) judged by TLC against OracleC13.tla, which enumerates ALL injective node maps: existence, the exact SET of mappings yielded, each once; non-termination (more than 600 yielded mappings) is a rejection.",
    note="Trusted: TLC, OracleC13.tla. Pairs bounded to <= 4 nodes per graph, weights in {0,1}, predicates = equality. One defect found and fixed (empty pattern looped forever).",
    design="4/C13", technique="TLA+ oracle spec evaluated by TLC on recorded (input, output) pairs"),
+ "C14": dict(
+   text="The Acyclic actions of MGTrace.tla (on top of GraphAbs/StableAbs): an insertion is rejected exactly for a self-loop or when the target already reaches the source (reachability closure), a rejected call changes nothing (graph and order), try_from_graph/TryFrom accept exactly the acyclic graphs, remove_node of an absent/already removed node changes nothing, and after every call the logged order (nodes_iter) must be a permutation of exactly the live nodes with every edge forward, with get_position strictly increasing along it, at_position its inverse, range() its sub-sequences and is_valid_edge = 'not a self-loop and no path back'; invariant: no directed cycle while wrapped. Real Acyclic<DiGraph>/Acyclic<StableDiGraph> histories (debug; release in thorough) including removal of non-last DiGraph nodes and repeated removals are validated by TLC.",
+   note="Trusted: TLC + Json module, harness recorder; positions are opaque so their consistency is computed by the harness via the public API. Which valid order is kept is unspecified. Two defects found and fixed (remove_node of absent node, DiGraph renumbering not followed).",
+   design="4/C14", technique="TLA+ spec + trace validation of real executions"),
  "C15": dict(
    text="greedy_matching and maximum_matching (all accessors) on every encoding, ford_fulkerson (u32 and f64 capacities, parallel/antiparallel edges) on Graph and StableGraph with vacancies; judged by TLC against OracleC15.tla: valid matching with consistent accessors, size = maximum over ALL matchings (subset enumeration), flow feasibility, conservation, value = net out of s = minimum over all s-t cuts.",
    note="Trusted: TLC, OracleC15.tla. Inputs bounded to <= 10 edges. Recorded finding: maximum_matching on directed graph types is not maximum (documented as 'treated as undirected'; a repair changes trait bounds). ford_fulkerson sizing defect fixed.",
